@@ -5,7 +5,7 @@ CONFIG = {
                 "with one type and only values of that type; the connection pool keeps Size = idle + checked-out + being-dialled <= cap with no connection "
                 "in two places, for callers that close each handle at most once (refuted without that discipline); shard writes vs snapshot/compaction vs "
                 "reads: a read returns every write acknowledged before it began and acknowledged writes stay visible; a published metadata value is never "
-                "modified and an accepted authentication matches the user record that call read. That each modelled section is atomic and race-free in the Go "
+                "modified, an accepted authentication matches the user record that call read, and waitForIndex has no lost wake-up. That each modelled section is atomic and race-free in the Go "
                 "code is NOT proved: it is observed by a -race stress harness over the real tsdb.Store/Shard, coordinator pool and remote-iterator path, "
                 "hinted-handoff service and meta service/client, each run ending in a quiescent comparison with the acknowledged operations and replayed on the model.",
         "note": "Trusts Coq kernel, the harness and its logging order, the Go race detector; data races inside a section, deadlocks of real mutexes and "
@@ -22,13 +22,14 @@ CONFIG = {
     "search_rounds": 1,
     "search_boost": 1,
     "harness_timeout": {"quick": 900, "thorough": 3600},
-    "extra_proof_files": ["ProofsGen", "ProofsPool", "ProofsField", "ProofsShard", "ProofsMeta"],
+    "extra_proof_files": ["ProofsGen", "ProofsPool", "ProofsField", "ProofsShard", "ProofsMeta", "ProofsWait"],
     "rule": "designed runs first (the field-creation race schedule that refuted the pinned code; a double Close of a pooled connection; a starved pool), then seeded "
             "stress runs, each in a child process built with -race: pool (2-8 goroutines Get/MarkUnusable/Close against a counting factory, pruner on, dial failures, "
             "time-outs, Pool.Close at the end or racing the Closes), field creation under random enforced schedules (validator hook) and free-running conflicting writers, "
             "shard (writers, readers with a logical clock, WriteSnapshot, full compactions, writes+deletes of other series), remote iterators (random SELECT shapes through "
             "ClusterShardMapper/MetaExecutor against a real coordinator.Service on loopback, some abandoned undrained), meta client/service (retention-policy updates vs readers "
-            "holding published objects), authentication vs password change, hinted handoff (WriteShard for 3 nodes vs sender, purger and Close). "
+            "holding published objects), meta.Client updates against a snapshot server that publishes within +-60us of its answer (every call must return: no lost wake-up), "
+            "authentication vs password change, goroutines released together writing to the same brand-new series (cache key), hinted handoff (WriteShard for 3 nodes vs sender, purger and Close). "
             "One case per run; distinct = distinct seed/history; non-trivial = the run had concurrency effects to compare (conflicts, reads, reuse of connections...)",
     "trusted_base": [
         "C19: PARTIAL claim - the theorems are about the interleavings of atomic sections; atomicity/race-freedom of each section in the Go code is observed under -race, not proved",
@@ -36,6 +37,7 @@ CONFIG = {
         "treats the idle channel as a bag with possibly-missing polls so that such a history replays although log order and effect order differ slightly",
         "C19: race reports / deadlock time-outs / panics of the child process are recorded as obs.race / obs.timeout / obs.panic of the run in progress",
         "C19: hinted handoff and the remote-iterator path have no step-level model: counting oracle (acked <= delivered-or-queued <= attempted; pool Size == live server connections)",
+        "C19: shard runs end with a second store opened on a copy of the files on disk: a point counts as finally readable only if both stores return it",
         "C19: hooks: tsdb.VerifDefaultFieldValidator, coordinator.MetaExecutor.VerifPoolStats, meta.VerifSetBcryptCost (build tag verif)",
     ],
     "modelled": "modelled: shard.go validateSeriesAndFields/CreateFieldIfNotExists/tsm1 WritePoints type checks; coordinator/pool.go boundedPool+pooledConn (Get split at "
